@@ -218,7 +218,7 @@ func c04Walk(c *Ctx, pp, tag, name string, write bool) {
 					return isC && z == 0 && ((bo.Op == token.LSS && pol) || (bo.Op == token.GEQ && !pol))
 				})
 			}
-			if call, ok := k0.(*ssa.Call); ok && call.Call.StaticCallee() != nil && call.Call.StaticCallee().Name() == "ToInt" {
+			if call, ok := k0.(*ssa.Call); ok && call.Call.StaticCallee() != nil && fnName(call.Call.StaticCallee()) == "ToInt" {
 				keyVal = unwrapMakeIface(call.Call.Args[0])
 			}
 		}
@@ -401,7 +401,7 @@ func c04Walk(c *Ctx, pp, tag, name string, write bool) {
 		// the result is DectDataType(cur)
 		okRes := false
 		allInstrs(f, func(in ssa.Instruction) {
-			if call, ok := in.(*ssa.Call); ok && call.Call.StaticCallee() != nil && call.Call.StaticCallee().Name() == "DectDataType" && call.Call.Args[0] == cur {
+			if call, ok := in.(*ssa.Call); ok && call.Call.StaticCallee() != nil && fnName(call.Call.StaticCallee()) == "DectDataType" && call.Call.Args[0] == cur {
 				okRes = true
 			}
 		})
@@ -448,7 +448,7 @@ func c04IndexHelper(at ssa.Instruction, idx ssa.Value, listV ssa.Value) (ssa.Val
 		if v == ssa.Value(pK) {
 			return true
 		}
-		if c2, ok := v.(*ssa.Call); ok && c2.Call.StaticCallee() != nil && c2.Call.StaticCallee().Name() == "ToInt" && len(c2.Call.Args) == 1 {
+		if c2, ok := v.(*ssa.Call); ok && c2.Call.StaticCallee() != nil && fnName(c2.Call.StaticCallee()) == "ToInt" && len(c2.Call.Args) == 1 {
 			return unwrapMakeIface(c2.Call.Args[0]) == ssa.Value(pK) || c2.Call.Args[0] == ssa.Value(pK)
 		}
 		return false
@@ -501,7 +501,7 @@ func c04IndexHelper(at ssa.Instruction, idx ssa.Value, listV ssa.Value) (ssa.Val
 	}
 	// the key: the helper's first argument, or what the caller converted with cast.ToInt
 	a0 := call.Call.Args[0]
-	if c2, ok := a0.(*ssa.Call); ok && c2.Call.StaticCallee() != nil && c2.Call.StaticCallee().Name() == "ToInt" && len(c2.Call.Args) == 1 {
+	if c2, ok := a0.(*ssa.Call); ok && c2.Call.StaticCallee() != nil && fnName(c2.Call.StaticCallee()) == "ToInt" && len(c2.Call.Args) == 1 {
 		return unwrapMakeIface(c2.Call.Args[0]), true
 	}
 	return unwrapMakeIface(a0), true
@@ -534,7 +534,7 @@ func c04NilResult(ret *ssa.Return, kNil int64, pp string) bool {
 				}
 			}
 		case *ssa.Call:
-			if x.Call.StaticCallee() != nil && x.Call.StaticCallee().Name() == "ReturnAppend" {
+			if x.Call.StaticCallee() != nil && fnName(x.Call.StaticCallee()) == "ReturnAppend" {
 				app = true
 			}
 		}
@@ -666,7 +666,7 @@ func c04SliceCall(c *Ctx, pp, tag string) {
 				}
 				continue
 			}
-			if cl, ok := e.(*ssa.Call); ok && cl.Call.StaticCallee() != nil && cl.Call.StaticCallee().Name() == "ToInt" {
+			if cl, ok := e.(*ssa.Call); ok && cl.Call.StaticCallee() != nil && fnName(cl.Call.StaticCallee()) == "ToInt" {
 				stepConv = cl
 				continue
 			}
@@ -1009,7 +1009,7 @@ func c04BoundArg(arg ssa.Value, which string) (bool, string) {
 						}
 					case *ssa.Alloc:
 						cl, ok := singleStore(x).(*ssa.Call)
-						if !ok || cl.Call.StaticCallee() == nil || cl.Call.StaticCallee().Name() != "ToInt" {
+						if !ok || cl.Call.StaticCallee() == nil || fnName(cl.Call.StaticCallee()) != "ToInt" {
 							bad = "the int is not cast.ToInt(…)"
 							return
 						}
@@ -1060,7 +1060,7 @@ func c04BoundArg(arg ssa.Value, which string) (bool, string) {
 		}
 		v := singleStore(al)
 		cl, ok := v.(*ssa.Call)
-		if !ok || cl.Call.StaticCallee() == nil || cl.Call.StaticCallee().Name() != "ToInt" {
+		if !ok || cl.Call.StaticCallee() == nil || fnName(cl.Call.StaticCallee()) != "ToInt" {
 			return false, "the int is not cast.ToInt(…)"
 		}
 		src := provenanceOperand(unwrapMakeIface(cl.Call.Args[0]))
@@ -1091,11 +1091,11 @@ func provenanceOperand(v ssa.Value) string {
 			}
 		case *ssa.Extract:
 			if cl, ok := x.Tuple.(*ssa.Call); ok {
-				if cal := cl.Call.StaticCallee(); cal != nil && cal.Name() == "RunStmt" {
+				if cal := cl.Call.StaticCallee(); cal != nil && fnName(cal) == "RunStmt" {
 					out = append(out, path(cl.Call.Args[1]))
 					return
 				}
-				if cal := cl.Call.StaticCallee(); cal != nil && cal.Name() == "GetRet" {
+				if cal := cl.Call.StaticCallee(); cal != nil && fnName(cal) == "GetRet" {
 					// the evaluator call that precedes it in the same or the dominating block
 					if ev := precedingEval(cl); ev != nil {
 						out = append(out, path(ev.Call.Args[1]))
@@ -1129,7 +1129,7 @@ func precedingEval(getRet *ssa.Call) *ssa.Call {
 	var best *ssa.Call
 	allInstrs(getRet.Parent(), func(in ssa.Instruction) {
 		cl, ok := in.(*ssa.Call)
-		if !ok || cl.Call.StaticCallee() == nil || cl.Call.StaticCallee().Name() != "RunExpr" {
+		if !ok || cl.Call.StaticCallee() == nil || fnName(cl.Call.StaticCallee()) != "RunExpr" {
 			return
 		}
 		if !precedes(cl, getRet) {
@@ -1849,7 +1849,7 @@ func c04Literals(c *Ctx, pp, tag string) {
 			if !ok || cl.Call.StaticCallee() == nil {
 				return
 			}
-			n := cl.Call.StaticCallee().Name()
+			n := fnName(cl.Call.StaticCallee())
 			// the evaluator itself, or a same-package helper that hands its node parameter to it exactly once
 			viaHelper := false
 			if n != "RunStmt" && n != "RunExpr" && cl.Call.StaticCallee().Pkg == f.Pkg {
@@ -1990,7 +1990,7 @@ func c04Len(c *Ctx) {
 	zeroDefault := false
 	allInstrs(f, func(in ssa.Instruction) {
 		cl, ok := in.(*ssa.Call)
-		if !ok || cl.Call.StaticCallee() == nil || cl.Call.StaticCallee().Name() != "ReturnAppend" {
+		if !ok || cl.Call.StaticCallee() == nil || fnName(cl.Call.StaticCallee()) != "ReturnAppend" {
 			return
 		}
 		// the appended value: int64(len(val.(T))) or int64(0)
@@ -2046,7 +2046,7 @@ func c04Len(c *Ctx) {
 	okTag := true
 	nApp := 0
 	allInstrs(f, func(in ssa.Instruction) {
-		if cl, ok := in.(*ssa.Call); ok && cl.Call.StaticCallee() != nil && cl.Call.StaticCallee().Name() == "ReturnAppend" {
+		if cl, ok := in.(*ssa.Call); ok && cl.Call.StaticCallee() != nil && fnName(cl.Call.StaticCallee()) == "ReturnAppend" {
 			nApp++
 			if k, isC := constInt(cl.Call.Args[len(cl.Call.Args)-1]); !isC || k != kInt {
 				okTag = false
@@ -2068,20 +2068,29 @@ func c04Alias(c *Ctx) {
 	}
 	r.Fn(relName(set))
 	okStore, n := true, 0
-	allInstrs(set, func(in ssa.Instruction) {
-		st, ok := in.(*ssa.Store)
-		if !ok {
-			return
-		}
-		fa, ok := st.Addr.(*ssa.FieldAddr)
-		if !ok || namedOf(fa.X.Type()) != "runtime.Varb" || fieldName(fa) != "Value" {
-			return
-		}
-		n++
-		if p, ok := st.Val.(*ssa.Parameter); !ok || p.Name() != "value" {
-			okStore = false
-		}
-	})
+	scope := setScope(set)
+	var scopeFns []*ssa.Function
+	for g := range scope {
+		scopeFns = append(scopeFns, g)
+	}
+	sortFuncs(scopeFns)
+	for _, sf := range scopeFns {
+		vi := scope[sf]
+		allInstrs(sf, func(in ssa.Instruction) {
+			st, ok := in.(*ssa.Store)
+			if !ok {
+				return
+			}
+			fa, ok := st.Addr.(*ssa.FieldAddr)
+			if !ok || namedOf(fa.X.Type()) != "runtime.Varb" || fieldName(fa) != "Value" {
+				return
+			}
+			n++
+			if p, ok := st.Val.(*ssa.Parameter); !ok || p != sf.Params[vi] {
+				okStore = false
+			}
+		})
+	}
 	r.Ob("ALIAS", "Stack.Set stores the value it is given", t.Pos(set.Pos()), okStore && n >= 2, fmt.Sprintf("%d stores into Varb.Value, all of the parameter itself: a list or map bound to a second name is the same object", n))
 	// v1 assignment passes the evaluated right-hand side on unchanged
 	as := t.Func(pRT, "RunAssignmentExpr")
@@ -2099,7 +2108,7 @@ func c04Alias(c *Ctx) {
 			switch x := v.(type) {
 			case *ssa.Extract:
 				if src, ok := x.Tuple.(*ssa.Call); ok && src.Call.StaticCallee() != nil {
-					switch src.Call.StaticCallee().Name() {
+					switch fnName(src.Call.StaticCallee()) {
 					case "RunStmt", "runAssignArith":
 						return true
 					}
@@ -2160,7 +2169,7 @@ func c04Alias(c *Ctx) {
 		scan := func(g *ssa.Function, via *ssa.Call) {
 			allInstrs(g, func(in ssa.Instruction) {
 				cl, ok := in.(*ssa.Call)
-				if !ok || cl.Call.StaticCallee() == nil || cl.Call.StaticCallee().Name() != "SetVarb" {
+				if !ok || cl.Call.StaticCallee() == nil || fnName(cl.Call.StaticCallee()) != "SetVarb" {
 					return
 				}
 				calls++
@@ -2307,7 +2316,7 @@ func c04IndexSpec(at ssa.Instruction, idx ssa.Value, listV ssa.Value, kInt int64
 			args = append(args, symv("keyTag"))
 			hasTag = true
 		default:
-			if c2, isC := a.(*ssa.Call); isC && c2.Call.StaticCallee() != nil && c2.Call.StaticCallee().Name() == "ToInt" && len(c2.Call.Args) == 1 {
+			if c2, isC := a.(*ssa.Call); isC && c2.Call.StaticCallee() != nil && fnName(c2.Call.StaticCallee()) == "ToInt" && len(c2.Call.Args) == 1 {
 				args = append(args, symv("K"))
 				res.keyVal = unwrapMakeIface(c2.Call.Args[0])
 			} else if _, isI := a.Type().Underlying().(*types.Interface); isI && res.keyVal == nil {
@@ -2321,7 +2330,7 @@ func c04IndexSpec(at ssa.Instruction, idx ssa.Value, listV ssa.Value, kInt int64
 	cfg := &specCfg{MaxLoop: 2, MaxDepth: 3, MaxVisits: 100000}
 	cfg.Call = func(fn *ssa.Function, c *ssa.Call, nth int, as []sval) (sval, bool) {
 		if cal := c.Call.StaticCallee(); cal != nil {
-			switch cal.Name() {
+			switch fnName(cal) {
 			case "ToInt":
 				if len(as) == 1 && strings.Contains(as[0].String(), "key") {
 					return symv("K"), true
@@ -2418,7 +2427,7 @@ func c04SliceCallSpec(f, si *ssa.Function, kInt int64) c04SliceSpec {
 		if cal == nil {
 			return sval{}, false
 		}
-		switch cal.Name() {
+		switch fnName(cal) {
 		case "RunStmt": // v1: (value, tag, error)
 			n := args[len(args)-1].String()
 			return sval{tup: []sval{symv("val(" + n + ")"), symv("tag(" + n + ")"), symv("err(" + n + ")")}}, true
